@@ -155,9 +155,17 @@ def compute() -> Dict[str, Any]:
     evcls = find_class(ev, "Evaluator")
     sites = M.build_sites()
 
+    # A site whose expression can no longer be located (the method was rewritten) does not stop the harness:
+    # the error is kept and makes BOTH generators fail (handled like a broken bridge: search, then
+    # violation / no-failing-input-found); meanwhile the site counts as "no handler".
+    errors: List[str] = []
     handlers: Dict[str, List[type]] = {}
     for s in sites:
-        handlers[s.name] = [_resolve(n, ev_mod) for n in site_handlers(evcls, s)]
+        try:
+            handlers[s.name] = [_resolve(n, ev_mod) for n in site_handlers(evcls, s)]
+        except TranslationError as ex:
+            errors.append(f"site {s.name}: {ex}")
+            handlers[s.name] = []
 
     tp = find_class(ev, "Transpiler")
     runc = [_resolve(n, ev_mod) for n in _single_try_handlers(find_func(tp.body, "evaluate"), "Transpiler.evaluate")]
@@ -214,7 +222,7 @@ def compute() -> Dict[str, Any]:
     classes = first + rest
     ids = {c: i for i, c in enumerate(classes)}
 
-    out = dict(sites=sites, handlers=handlers, runc=runc, result=res, parse=parse_h, lark=lark_raised,
+    out = dict(errors=errors, sites=sites, handlers=handlers, runc=runc, result=res, parse=parse_h, lark=lark_raised,
                measured=measured, classes=classes, ids=ids, M=M)
     _CACHE[key] = out
     return out
@@ -230,6 +238,8 @@ def _nat_list(xs) -> str:
 
 def gen_handlers() -> str:
     d = compute()
+    if d["errors"]:
+        raise TranslationError("; ".join(d["errors"]))
     ids, classes = d["ids"], d["classes"]
     o = [HEADER.format(src="src/celpy/evaluation.py (Evaluator rule methods, result, Transpiler.evaluate), "
                            "src/celpy/celparser.py (CELParser.parse), lark.exceptions"),
@@ -277,6 +287,8 @@ def lean_key(site: str, key: Tuple[str, ...]) -> Tuple[str, ...]:
 
 def gen_measured() -> str:
     d = compute()
+    if d["errors"]:
+        raise TranslationError("; ".join(d["errors"]))
     ids = d["ids"]
     o = [HEADER.format(src="the live code: every primitive of measure_c04.build_sites applied to the value pool"),
          "import Cel.Model.Total\nnamespace Cel.Gen.Measured\nopen Cel.Total\n"]
